@@ -17,6 +17,8 @@ OK_STMTS = [
     'fmt = import("fmt"); fmt.Println("via fmt")', 'os = import("os"); fmt2 = import("fmt"); fmt2.Fprintln(os.Stderr, "to stderr")',
     'y = func() { return [1, 2] }(); println(y[1])', '# a comment', '', 'var q = 5', 'println(defined("args"), defined("nosuch"))',
     # the command runs the bytes it is given: carriage returns inside raw strings, tabs, form feeds
+    # the script runs where the command was started: its working directory is the caller's
+    'osw = import("os"); d, e = osw.Getwd(); println(d)', 'osw = import("os"); d, e = osw.Getwd(); iow = import("io/ioutil"); fs, e2 = iowReadDir(d); println(len(d) > 0)'.replace("iowReadDir", "iow.ReadDir"),
     'println(len(`a\r\nb`))', 'print(`x\r\ny`)', 's = `l1\r\nl2\r\n`; if len(s) != 8 { throw "rewritten" }; println("raw ok")', 'println(len("t\tq"), len(`\f`))',
 ]
 RUN_FAIL = ['undefined_name', 'throw "boom"', 'nil.x', '[1][5]', 'import("nosuch")', 'toInt()', 'x = 1; x()', 'nosuch.b = 1',
